@@ -29,7 +29,7 @@ use poulpy_core::{
         GGSWDecompress, GGSWLayout, GLWE, GLWEAutomorphismKey, GLWEAutomorphismKeyCompressed, GLWEAutomorphismKeyDecompress,
         GLWECompressed, GLWECompressedSeed, GLWEDecompress, GLWELayout, GLWEPlaintext, GLWESecret, GLWESecretPreparedFactory,
         GLWESwitchingKey, GLWESwitchingKeyCompressed, GLWESwitchingKeyDecompress, GLWETensorKey, GLWETensorKeyCompressed,
-        GLWETensorKeyDecompress, GLWEToLWEKey, GLWEToLWESwitchingKeyCompressed, GLWEToLWESwitchingKeyDecompress, LWE, LWECompressed, LWESwitchingKey,
+        GLWETensorKeyDecompress, GetGaloisElement, GLWEToLWEKey, GLWEToLWESwitchingKeyCompressed, GLWEToLWESwitchingKeyDecompress, LWE, LWECompressed, LWESwitchingKey,
         LWESwitchingKeyCompressed, LWESwitchingKeyDecompress, LWEToGLWEKey, LWEToGLWEKeyCompressed, LWEToGLWEKeyDecompress, LWEDecompress, LWEInfos, LWELayout, LWEPlaintext, LWESecret, Rank, TorusPrecision,
     },
 };
@@ -308,7 +308,9 @@ macro_rules! cmp_backend {
                             c2.read_from(&mut &bytes[..]).unwrap();
                             let mut d2 = GLWEAutomorphismKey::alloc_from_infos(&gglwe_layout);
                             module.decompress_automorphism_key(&mut d2, &c2);
-                            let ok = ser(&c2) == bytes && ser(&d2) == ser(&d);
+                            // the Galois element is part of the object: the expanded key must carry the one the compressed key
+                            // was made for (as the standard key does), before and after the serialisation round trip
+                            let ok = ser(&c2) == bytes && ser(&d2) == ser(&d) && d.p() == p && s.p() == p && c.p() == p && d2.p() == p;
                             subs.push((own_gglwe(&d.to_ref()), own_gglwe(&s.to_ref()), c.to_ref().seed().clone(), ok));
                         }
                         "tsk" => {
